@@ -23,9 +23,11 @@ import vlib
 
 LEVEL = "proof"
 MODULE = "Sqfs.Props.C08"
-REQUIRED = ["Sqfs.C08.bw_no_error", "Sqfs.C08.bw_readback", "Sqfs.C08.bw_share_sound", "Sqfs.C08.bw_share_complete",
+REQUIRED = ["Sqfs.C08.bw_no_error", "Sqfs.C08.bw_readback", "Sqfs.C08.bw_readback_all", "Sqfs.C08.bw_fragblocks_kept",
+            "Sqfs.C08.bw_share_sound", "Sqfs.C08.bw_share_complete",
             "Sqfs.C08.bw_refines_spec", "Sqfs.C08.bw_checksum_irrelevant",
-            "Sqfs.C08.frag_no_error", "Sqfs.C08.frag_sound", "Sqfs.C08.frag_share", "Sqfs.C08.frag_lookup_unique"]
+            "Sqfs.C08.frag_no_error", "Sqfs.C08.frag_sound", "Sqfs.C08.frag_share", "Sqfs.C08.frag_lookup_unique",
+            "Sqfs.C08.stream_wfS", "Sqfs.C08.stream_readback", "Sqfs.C08.stream_frag_link", "Sqfs.C08.stream_frag_sound"]
 
 F_DONT_COMPRESS, F_DONT_HASH, F_DONT_FRAGMENT, F_DONT_DEDUP, F_IGNORE_SPARSE = 1, 2, 4, 8, 0x10
 F_SPARSE, F_FIRST, F_LAST, F_IS_FRAGMENT, F_FRAGBLK, F_COMPRESSED = 0x400, 0x800, 0x1000, 0x2000, 0x4000, 0x8000
